@@ -512,6 +512,17 @@ class DriverLubaRs232(DriverSerialBase):
             # Use a mutex to ensure only one message is sent at a time,
             # waiting for the LUBA device to confirm before sending another
             async with self._tx_lock:
+                # A confirmation that is already queued belongs to an earlier
+                # command whose sender gave up waiting (timeout or
+                # cancellation); it must not be taken for this one
+                while True:
+                    try:
+                        item = self._queue_tx_conf.get_nowait()
+                        _LOG.critical(
+                            f"LUBA TX confirmation queue discarding: {item}"
+                        )
+                    except asyncio.QueueEmpty:
+                        break
                 _LOG.debug(f"DALI sending message: {tx}")
                 _LOG.trace(
                     f"LUBA frame to send: {[f'0x{data:02x}' for data in tx_ints]}"
